@@ -75,6 +75,11 @@ theorem chain_inv_partial (es : List Ev) (s : St) (hr : model.run model.init es 
     (hsafe : SafeRun model.init es) : Chain.Inv (proj s) :=
   (good_run model.init s es good_init hsafe hr).chain
 
+/-- the critical section of call `a`, run in state `s`, returns the exit channel of instance `p` as the
+`waitReturn` channel of SetRoutine / SetState / SetStateRoutine / SwapValue -/
+def csReturnsCh (s : St) (a p : Nat) : Prop :=
+  ∃ cf c r, s.cfg = some cf ∧ s.calls[a]? = some c ∧ apiCS s cf c.op = some r ∧ r.2.2 = some p
+
 /-- **C04, second sentence** (`waitReturn_after_all`, outside D16): if the critical section of call `a` ran in
 state `s1` and handed out the exit channel of instance `p` as its wait channel, then in every later state in
 which that channel is closed, every instance that existed when the call was made has exited (is past
@@ -82,9 +87,31 @@ which that channel is closed, every instance that existed when the call was made
 theorem waitReturn_after_all (es1 es2 : List Ev) (a : Nat) (s1 s2 s3 : St) (p : Nat)
     (h1 : model.run model.init es1 = some s1) (h2 : model.step s1 (.cs a) = some s2)
     (h3 : model.run s2 es2 = some s3)
-    (hsafe : SafeRun model.init (es1 ++ [.cs a] ++ es2))
-    (hwr : (s2.calls[a]?).bind (·.wr) = some p) (hcl : instClosed s3 p = true) :
+    (hsafe : SafeRun model.init (es1 ++ ([.cs a] ++ es2)))
+    (hwr : csReturnsCh s1 a p) (hcl : instClosed s3 p = true) :
     ∀ j, j < s1.insts.length → instClosed s3 j = true := by
-  sorry
+  obtain ⟨hsafe1, hsafe2⟩ := safeRun_append model.init s1 es1 _ hsafe h1
+  have hsafe2' : SafeRun s1 (Ev.cs a :: es2) := hsafe2
+  have g1 := good_run model.init s1 es1 good_init hsafe1 h1
+  have hk := step_ok s1 s2 (.cs a) g1.recs h2
+  have g2 : Good s2 := ⟨hk.1, (hk.2 hsafe2'.1).inv g1.chain⟩
+  have hsafe3 : SafeRun s2 es2 := hsafe2'.2 s2 h2
+  have g3 := good_run s2 s3 es2 g2 hsafe3 h3
+  obtain ⟨cf, c, r, _, _, hr, hp⟩ := hwr
+  have hlast : lastOf s1 = some p := apiCS_wr s1 cf c.op r hr p hp
+  intro j hj
+  rcases Nat.lt_or_ge p j with hpj | hpj
+  · -- above `last`: already exited when the call was made
+    have : Chain.isClosed (proj s1) j = true :=
+      g1.chain.topSome p (by simp [proj, hlast]) j hpj (by simpa [proj] using hj)
+    rw [isClosed_proj] at this
+    have c2 := steps_closed_mono (hk.2 hsafe2'.1) j (by rw [isClosed_proj]; exact this)
+    rw [isClosed_proj] at c2
+    exact closed_run s2 s3 es2 g2.recs hsafe3 h3 j c2
+  · rcases Nat.lt_or_ge j p with hlt | hge
+    · have := g3.chain.down p (by rw [isClosed_proj]; exact hcl) j hlt
+      rw [isClosed_proj] at this; exact this
+    · have : j = p := by omega
+      subst this; exact hcl
 
 end UtilModel.Routine
